@@ -727,7 +727,12 @@ def _copy(ex, args, n):
         nd = lam_copy(dv.data, ooff, sv.data, foff, cnt)
     else:
         if sp.same(dp):
-            raise Unsupported('strided std::copy within one array')
+            # element-by-element forward copy inside one array: equals the 'source copied first' result only if no
+            # position written at step k1 is read at a later step k2
+            k1, k2 = z3.Int('k1!ov'), z3.Int('k2!ov')
+            ex.oblige('overlap', 'copy.forward-aliasing',
+                      z3.ForAll([k1, k2], z3.Implies(z3.And(0 <= k1, k1 < k2, k2 < cnt),
+                                                     ooff + k1 * ostep != foff + k2 * fstep)), n)
         nd = tmap(lambda d: z3.Const(ex.fresh_name('cp'), d.sort()), dv.data)
         k = z3.Int(ex.fresh_name('k!cp'))
         j = z3.Int(ex.fresh_name('j!cp'))
@@ -874,3 +879,11 @@ def _make_shared(ex, args, n):
             raise Unsupported('make_shared<%s>: no contract and no body for the constructor' % cls)
         ex.calls.inline(ex, dd, c, obj, bound, n)
     return PtrVal(obj, None)
+
+
+@free('distance')
+def _distance(ex, args, n):
+    a, b = ex.ev(args[0]), ex.ev(args[1])
+    if isinstance(a, PtrVal) and isinstance(b, PtrVal) and a.path is not None and a.path.same(b.path):
+        return b.off - a.off
+    raise Unsupported('std::distance over unrelated iterators')
